@@ -23,7 +23,8 @@ EXPLANATION = (
     "and wrap-around arithmetic are value-level and not decided."
     " ADDED LATER: R7 members are addressed by the offset resolved by name (def-use through typer, resolver, generator); R8 the generator passes every child of every resolved node on to generate() (interprocedural T2); the call-convention rule of C03.R8 and the literal materialisation rules of C09.R6 are shared."
     " ROUNDS 5-6: R9 decision table of resolved::Expression::value_type; R10 every extractvalue of generate_word_deref takes the value accumulated by the previous steps (backward slice). Tables are compared in canonical binding names (hirq.full_env), not source names."
-    " ROUND 7: R11 the Element and Member arms after the automatic dereference of an immediate parameter both push the leading zero index (sibling agreement; /repo fix b78d5a6); class predicates are folded per variant whatever their form.")
+    " ROUND 7: R11 the Element and Member arms after the automatic dereference of an immediate parameter both push the leading zero index (sibling agreement; /repo fix b78d5a6); class predicates are folded per variant whatever their form."
+    " ROUND 8: R12-IMMEDIATE-FLAG-SCOPE: in the step loop of generate_storage_address the address local is only replaced with the immediate-parameter flag known false (path-sensitive scan; `data[0]` with `data: []&i32`); C09.R7 (string literal bytes) and C09.R10 (what may be spliced into the snprintf template) are shared, because what print!/format! write is part of the run-time behaviour.")
 
 GEN_EXPR = "<alpha::resolved::Expression as alpha::generator::Generatable>::generate"
 GEN_CMP = "<alpha::resolved::Comparison as alpha::generator::Generatable>::generate"
@@ -490,55 +491,72 @@ def r12_immediate_flag_scope(run, F):
         x = hirq.unwrap_trivial(e) if e is not None else (hirq.unwrap_trivial(last.get("e", {})) if last and last.get("k") in ("Semi", "Expr") else {})
         return x.get("k") in ("Continue", "Break", "Ret")
 
-    bad = []
-
-    def scan(n, known_false):
-        """returns whether the flag is known false after n"""
+    # Path-sensitive scan of one arm.  A state is (flag known false, address replaced); `exits` collects the states in which an
+    # iteration of the step loop ends (the end of the arm, or a `continue`).  The invariant: no iteration ends with the address
+    # replaced while the flag may still be set.
+    def scan(n, states, exits):
+        """states: set of (known_false, replaced) reaching n; returns the set of states leaving n normally"""
         n = hirq.unwrap_trivial(n)
         k = n.get("k")
+        if not states:
+            return states
         if k == "Block":
-            st = known_false
-            for s in n.get("stmts", []):
-                if s.get("k") == "Let":
-                    if isinstance(s.get("init"), dict):
-                        st = scan(s["init"], st)
+            st = states
+            for s_ in n.get("stmts", []):
+                if s_.get("k") == "Let":
+                    if isinstance(s_.get("init"), dict):
+                        st = scan(s_["init"], st, exits)
                 else:
-                    st = scan(s.get("e", s), st)
+                    st = scan(s_.get("e", s_), st, exits)
             if n.get("e") is not None:
-                st = scan(n["e"], st)
+                st = scan(n["e"], st, exits)
             return st
         if k == "Assign":
             l = hirq.unwrap_trivial(n["lhs"])
             if l.get("k") == "Path" and l.get("lid") == flag:
-                return hirq.unwrap_trivial(n["rhs"]).get("v") is False
-            st = scan(n["rhs"], known_false)
-            if l.get("k") == "Path" and l.get("lid") == addr and not st:
-                bad.append(n)
+                v = hirq.unwrap_trivial(n["rhs"]).get("v")
+                return {((v is False), r) for _, r in states}
+            st = scan(n["rhs"], states, exits)
+            if l.get("k") == "Path" and l.get("lid") == addr:
+                return {(f, True) for f, _ in st}
             return st
         if k == "If":
             if is_flag(n["cond"]):
-                t = scan(n["then"], False)
-                e = scan(n["else"], True) if n.get("else") is not None else True
-                return (t or diverges(n["then"])) and (e or (n.get("else") is not None and diverges(n["else"])))
-            st = scan(n["cond"], known_false)
-            t = scan(n["then"], st)
-            e = scan(n["else"], st) if n.get("else") is not None else st
-            return (t or diverges(n["then"])) and (e or (n.get("else") is not None and diverges(n["else"])))
+                t = scan(n["then"], {(False, r) for _, r in states}, exits)
+                e_in = {(True, r) for _, r in states}
+                e = scan(n["else"], e_in, exits) if n.get("else") is not None else e_in
+                return t | e
+            st = scan(n["cond"], states, exits)
+            t = scan(n["then"], st, exits)
+            e = scan(n["else"], st, exits) if n.get("else") is not None else st
+            return t | e
         if k == "Match":
-            st = scan(n["scrut"], known_false)
-            outs = [scan(a["body"], st) or diverges(a["body"]) for a in n["arms"]]
-            return all(outs)
+            st = scan(n["scrut"], states, exits)
+            out = set()
+            for a_ in n["arms"]:
+                out |= scan(a_["body"], st, exits)
+            return out
+        if k == "Continue":
+            exits |= states
+            return set()
+        if k in ("Ret", "Break"):
+            if isinstance(n.get("e"), dict):
+                scan(n["e"], states, exits)
+            return set()
         if k in ("Loop", "Closure"):
-            scan(n.get("body", n.get("e", {})) if isinstance(n.get("body", n.get("e")), dict) else {}, False)
-            return False
-        st = known_false
+            return {(False, r) for _, r in states} | states      # not modelled: the flag is unknown afterwards
+        st = states
         for v in n.values():
             if isinstance(v, dict) and "k" in v:
-                st = scan(v, st)
+                st = scan(v, st, exits)
             elif isinstance(v, list):
                 for x in v:
                     if isinstance(x, dict) and "k" in x:
-                        st = scan(x, st)
+                        st = scan(x, st, exits)
+                    elif isinstance(x, dict):
+                        for y in x.values():
+                            if isinstance(y, dict) and "k" in y:
+                                st = scan(y, st, exits)
         return st
     narms = 0
     for a in ms[0]["arms"]:
@@ -546,12 +564,13 @@ def r12_immediate_flag_scope(run, F):
         if not assigns:
             continue
         narms += 1
-        bad.clear()
-        scan(a["body"], False)
+        exits = set()
+        exits |= scan(a["body"], {(False, False)}, exits)
+        bad = [e for e in exits if e[1] and not e[0]]
         label = "|".join(sorted(set(hirq.pat_key(alt).split("::")[-1] for alt in hirq.pat_alts(a["pat"]))))
-        run.ob("R12-IMMEDIATE-FLAG-SCOPE", label, not bad, F.where(b, bad[0]) if bad else F.where(b, a),
-               "in the %s arm the address is replaced while the immediate-parameter flag may still be set: a later automatic dereference "
-               "would skip its load (`data[0]` with `data: []&i32`; `data[1].leaf.value` with `leaf: &Leaf`)" % label)
+        run.ob("R12-IMMEDIATE-FLAG-SCOPE", label, not bad, F.where(b, assigns[0]),
+               "an iteration of the step loop can end in the %s arm with the address replaced while the immediate-parameter flag may still be set: a later "
+               "automatic dereference would skip its load (`data[0]` with `data: []&i32`; `data[1].leaf.value` with `leaf: &Leaf`)" % label)
     run.ob("R12-IMMEDIATE-FLAG-SCOPE", "scan", narms >= 2, F.where(b), "%d arms of the step loop replace the address (Autoderef/Autoview, Autodeslice 0)" % narms)
 
 
